@@ -44,6 +44,9 @@ Proof.
   destruct b; simpl; [reflexivity|]. rewrite E. reflexivity.
 Qed.
 
+Lemma advn_S st ch t k : m_rest st = ch :: t -> advn st (S k) = advn (step st ch t) k.
+Proof. intros H. cbn [advn]. rewrite H. reflexivity. Qed.
+
 Lemma ltb_succ p : N.ltb p (N.succ p) = true.
 Proof. apply N.ltb_lt. lia. Qed.
 
@@ -210,3 +213,169 @@ Lemma fail_p_diff : hdr_fail G1p h_diff. Proof. solve_fail. Qed.
 
 Lemma r1_fail p t pos c k : rm R1 (mk0 p (35%N :: t) pos) c k = None.
 Proof. reflexivity. Qed.
+
+(* ------------------------------------------------------------------ the lookahead *)
+Definition bad_look (t : text) : Prop :=
+  match t with [] => False | [x] => True | x :: y :: _ => N.eqb x 35 && N.eqb y 46 = false end.
+
+Definition dotted : list text := [h_change; h_file; h_meta1; h_meta2; h_meta3; h_pre1; h_pre2; h_diff].
+Definition good_tail (t : text) : Prop := t = [] \/ exists h r, In h dotted /\ t = h ++ r.
+
+Lemma look_fail st c : bad_look (m_rest st) -> rm LOOKB st c K0 = None.
+Proof.
+  destruct st as [p t pos]. cbn [m_rest]. destruct t as [|x [|y r]]; cbn [bad_look]; intros H; try contradiction.
+  - unfold LOOKB. crunch. destruct (N.eqb x 35); crunch; reflexivity.
+  - unfold LOOKB. crunch. destruct (N.eqb x 35); [|crunch; reflexivity].
+    cbn [andb] in H. rewrite H. crunch. reflexivity.
+Qed.
+
+Lemma look_succ st c : good_tail (m_rest st) -> exists st', rm LOOKB st c K0 = Some (st', c).
+Proof.
+  destruct st as [p t pos]. cbn [m_rest]. intros [E | (h & r & Hin & E)]; subst t.
+  - eexists. reflexivity.
+  - unfold dotted in Hin. cbn [In] in Hin.
+    repeat (destruct Hin as [<-|Hin]; [eexists; unfold LOOKB, K0; crunch; reflexivity|]). contradiction.
+Qed.
+
+Lemma advn_skipn : forall j st, m_rest (advn st j) = skipn j (m_rest st).
+Proof.
+  induction j as [|j IH]; intros st; [reflexivity|]. cbn [advn].
+  destruct (m_rest st) as [|ch t] eqn:E; [rewrite E; reflexivity|]. rewrite IH. reflexivity.
+Qed.
+
+(* ------------------------------------------------------------------ the parts of a rule after group 1 *)
+Definition keys_ge2 (new : caps) : Prop := forall i, In i (map fst new) -> 2 <= i.
+
+Lemma rm_g5look x body' tail st c k (Q : mstate * caps -> Prop) :
+  m_rest st = (x :: body') ++ tail ->
+  (forall j, 1 <= j -> j < length (x :: body') -> bad_look (skipn j (x :: body') ++ tail)) ->
+  good_tail tail ->
+  (forall cp, exists res, k (advn st (length (x :: body'))) ((5, cp) :: c) = Some res /\ Q res) ->
+  exists res, rm (RSeq G5 (RLook LOOKB)) st c k = Some res /\ Q res.
+Proof.
+  intros Hr Hbad Hgood Hk.
+  set (K5 := fun st1 c1 =>
+               match rm LOOKB st1 ((5, Build_cap (m_pos st) (m_pos st1 - m_pos st)%N (m_rest st)) :: c1) K0 with
+               | Some (_, c2) => k st1 c2
+               | None => None
+               end).
+  assert (E : rm (RSeq G5 (RLook LOOKB)) st c k =
+              match rep_loop (rm RAny) false (S (length (m_rest st))) 1 None st c K5 with
+              | Some r => Some r
+              | None => rm REndZ st c K5
+              end) by reflexivity.
+  rewrite E. clear E.
+  destruct (Hk (Build_cap (m_pos st) (m_pos (advn st (length (x :: body'))) - m_pos st)%N (m_rest st)))
+    as (res & Kres & Qres).
+  exists res. split; [|exact Qres].
+  rewrite (lazy_scan1 (rm RAny) ltac:(intros s c0 k0; reflexivity) x body' st tail c K5 res); try reflexivity.
+  - assumption.
+  - lia.
+  - intros j H1 H2. unfold K5. rewrite look_fail; [reflexivity|].
+    rewrite advn_skipn, Hr, skipn_app.
+    replace (j - length (x :: body')) with 0 by lia. cbn [skipn]. apply Hbad; assumption.
+  - unfold K5.
+    destruct (look_succ (advn st (length (x :: body')))
+                ((5, Build_cap (m_pos st) (m_pos (advn st (length (x :: body'))) - m_pos st)%N (m_rest st)) :: c))
+      as [st' Es].
+    + rewrite (advn_rest _ _ _ Hr). exact Hgood.
+    + rewrite Es. exact Kres.
+Qed.
+
+Definition notlf (ch : N) : bool := xorb true (in_class [(10%N, 10%N)] ch).
+Definition optline (o : option text) : text := match o with None => [] | Some opts => 32%N :: opts end.
+Definition nolf (o : option text) : Prop := match o with None => True | Some opts => forallb notlf opts = true end.
+
+Lemma notlf_spec ch : notlf ch = true <-> ch <> 10%N.
+Proof.
+  unfold notlf, in_class. cbn [existsb fst snd]. rewrite orb_false_r.
+  destruct (N.leb 10 ch) eqn:A; destruct (N.leb ch 10) eqn:C; cbn;
+    try apply N.leb_le in A; try apply N.leb_le in C; try apply N.leb_gt in A; try apply N.leb_gt in C;
+    split; intros; try discriminate; try lia; try reflexivity.
+Qed.
+
+Lemma rm_opt o sym st c k R' (Q : mstate * caps -> Prop) :
+  m_rest st = optline o ++ 10%N :: sym -> nolf o ->
+  (forall new, keys_ge2 new ->
+     exists res, rm R' (advn st (length (optline o))) (new ++ c) k = Some res /\ Q res) ->
+  exists res, rm (RSeq OPT R') st c k = Some res /\ Q res.
+Proof.
+  intros Hr Hn Hk.
+  assert (E : rm (RSeq OPT R') st c k =
+              rep_loop (rm (RSeq (RGroup 2 (RLit 32)) (RGroup 3 (RRepeat true 0 None NOTLF)))) true
+                       (S (length (m_rest st))) 0 (Some 1) st c (fun st1 c1 => rm R' st1 c1 k)) by reflexivity.
+  rewrite E. clear E. rewrite opt_unfold by (rewrite Hr, app_length; simpl; lia).
+  destruct o as [opts|]; cbn [optline] in *.
+  - (* options present *)
+    set (st1 := step st 32 (opts ++ 10%N :: sym)).
+    set (c1 := (2, Build_cap (m_pos st) (m_pos st1 - m_pos st)%N (m_rest st)) :: c).
+    set (KK := fun st2 c2 => if N.ltb (m_pos st) (m_pos st2) then rm R' st2 c2 k else None).
+    set (K3 := fun st2 c2 => KK st2 ((3, Build_cap (m_pos st1) (m_pos st2 - m_pos st1)%N (m_rest st1)) :: c2)).
+    assert (E : rm (RSeq (RGroup 2 (RLit 32)) (RGroup 3 (RRepeat true 0 None NOTLF))) st c KK =
+                rep_loop (rm NOTLF) true (S (length (m_rest st1))) 0 None st1 c1 K3).
+    { unfold c1, K3. cbn [rm]. rewrite Hr. cbn [app]. rewrite N.eqb_refl. reflexivity. }
+    fold KK. rewrite E. clear E.
+    destruct (Hk [(3, Build_cap (m_pos st1) (m_pos (advn st1 (length opts)) - m_pos st1)%N (m_rest st1));
+                  (2, Build_cap (m_pos st) (m_pos st1 - m_pos st)%N (m_rest st))]) as (res & Kres & Qres).
+    { intros i Hi. simpl in Hi. destruct Hi as [<-|[<-|[]]]; lia. }
+    exists res. split; [|exact Qres].
+    rewrite (greedy_full notlf (rm NOTLF) ltac:(intros s c0 k0; reflexivity) opts st1 (10%N :: sym) c1 K3 res);
+      try reflexivity; try assumption; try lia.
+    unfold K3, KK.
+    assert (P : (m_pos st <? m_pos (advn st1 (length opts)))%N = true).
+    { apply N.ltb_lt. rewrite (advn_pos opts st1 (10%N :: sym) eq_refl). unfold st1. simpl. lia. }
+    rewrite P. cbn [length] in Kres. rewrite (advn_S st 32%N (opts ++ 10%N :: sym) (length opts) Hr) in Kres.
+    exact Kres.
+  - (* no options *)
+    assert (E : rm (RSeq (RGroup 2 (RLit 32)) (RGroup 3 (RRepeat true 0 None NOTLF))) st c
+                   (fun st1 c1 => if N.ltb (m_pos st) (m_pos st1) then rm R' st1 c1 k else None) = None).
+    { cbn [rm]. rewrite Hr. reflexivity. }
+    rewrite E. clear E. destruct (Hk []) as (res & Kres & Qres); [intros i []|].
+    exists res. split; [exact Kres | exact Qres].
+Qed.
+
+Lemma rm_g4_seq sym st c k R' :
+  m_rest st = 10%N :: sym ->
+  rm (RSeq G4 R') st c k =
+  rm R' (advn st 1) ((4, Build_cap (m_pos st) (m_pos (advn st 1) - m_pos st)%N (m_rest st)) :: c) k.
+Proof. intros Hr. cbn [rm G4 advn]. rewrite Hr. reflexivity. Qed.
+
+Lemma rm_g4 sym st c k :
+  m_rest st = 10%N :: sym ->
+  rm G4 st c k = k (advn st 1) ((4, Build_cap (m_pos st) (m_pos (advn st 1) - m_pos st)%N (m_rest st)) :: c).
+Proof. intros Hr. cbn [rm G4 advn]. rewrite Hr. reflexivity. Qed.
+
+(* what the engine needs to know about a successful rule match *)
+Definition ends_at (tail : text) (c : caps) (res : mstate * caps) : Prop :=
+  m_rest (fst res) = tail /\ exists new, snd res = new ++ c /\ keys_ge2 new.
+
+Lemma keys_cons i cp new : 2 <= i -> keys_ge2 new -> keys_ge2 ((i, cp) :: new).
+Proof. intros H1 H2 j [<-|I]; [assumption | auto]. Qed.
+
+Lemma container_rest o tail st c :
+  m_rest st = optline o ++ 10%N :: tail -> nolf o ->
+  exists res, rm CONTAINER_REST st c K0 = Some res /\ ends_at tail c res.
+Proof.
+  intros Hr Hn. unfold CONTAINER_REST. apply (rm_opt o tail); try assumption.
+  intros new Hnew. pose proof (advn_rest _ _ _ Hr) as R1.
+  rewrite (rm_g4 tail) by assumption. eexists. split; [reflexivity|]. split; cbn [fst snd].
+  - apply (advn_rest [10%N]). exact R1.
+  - eexists ((4, _) :: new). split; [reflexivity|]. apply keys_cons; [lia | assumption].
+Qed.
+
+Lemma content_rest o x body' tail st c :
+  m_rest st = optline o ++ 10%N :: (x :: body') ++ tail -> nolf o ->
+  (forall j, 1 <= j -> j < length (x :: body') -> bad_look (skipn j (x :: body') ++ tail)) ->
+  good_tail tail ->
+  exists res, rm CONTENT_REST st c K0 = Some res /\ ends_at tail c res.
+Proof.
+  intros Hr Hn Hbad Hgood. unfold CONTENT_REST. apply (rm_opt o ((x :: body') ++ tail)); try assumption.
+  intros new Hnew. pose proof (advn_rest _ _ _ Hr) as R1.
+  rewrite (rm_g4_seq ((x :: body') ++ tail)) by assumption.
+  pose proof (advn_rest [10%N] _ _ R1) as R2. cbn [length] in R2.
+  apply (rm_g5look x body' tail); try assumption.
+  intros cp. eexists. split; [reflexivity|]. split; cbn [fst snd].
+  - apply (advn_rest (x :: body')). exact R2.
+  - eexists ((5, cp) :: (4, _) :: new). split; [reflexivity|].
+    apply keys_cons; [lia|]. apply keys_cons; [lia | assumption].
+Qed.
